@@ -14,12 +14,14 @@ EXTENDS Clipper2, Json
 CONSTANT MaxLen
 
 \* alphabet: path-pool indices are resolved by the replayer (and checked by the trace spec)
-AddOps  == { [op |-> "add", p |-> 1, ptype |-> 0, open |-> FALSE],
-             [op |-> "add", p |-> 2, ptype |-> 1, open |-> FALSE],
-             [op |-> "add", p |-> 3, ptype |-> 1, open |-> FALSE],
-             [op |-> "add", p |-> 4, ptype |-> 0, open |-> TRUE],
-             [op |-> "add", p |-> 5, ptype |-> 0, open |-> FALSE],
-             [op |-> "add", p |-> 6, ptype |-> 1, open |-> FALSE] }
+\* via: "paths" = AddPaths with the whole set; "path" = the exported single-path AddPath, once per path of the set (the
+\* integer engine only; the other kinds read it as "paths").  The specification's effect is the same.
+AddOps  == { [op |-> "add", p |-> 1, ptype |-> 0, open |-> FALSE, via |-> "paths"],
+             [op |-> "add", p |-> 2, ptype |-> 1, open |-> FALSE, via |-> "paths"],
+             [op |-> "add", p |-> 3, ptype |-> 1, open |-> FALSE, via |-> "path"],
+             [op |-> "add", p |-> 4, ptype |-> 0, open |-> TRUE, via |-> "paths"],
+             [op |-> "add", p |-> 5, ptype |-> 0, open |-> FALSE, via |-> "path"],
+             [op |-> "add", p |-> 6, ptype |-> 1, open |-> FALSE, via |-> "paths"] }
 ExecOps == { [op |-> "exec", form |-> "closed", ct |-> 2, fr |-> 1],
              [op |-> "exec", form |-> "closed", ct |-> 4, fr |-> 1],
              [op |-> "exec", form |-> "oc",     ct |-> 3, fr |-> 2],
